@@ -1,4 +1,54 @@
-From V Require Import Common.Base C10.BitSet C10.Renamer C10.Split.
-(* non-vacuity / sanity: concrete values *)
+From V Require Import Common.Base C10.BitSet C10.Renamer C10.Split C10.BitSetProofs C10.SplitProofs C10.Harness.
+(* non-vacuity / sanity: concrete values meeting the hypotheses of the theorems *)
+
 Example bitset_ex : String (SetBit (SetBit (NewBitSet 10) 1) 9) = [2; 2].
 Proof. vm_compute. reflexivity. Qed.
+Example good_ex : good_bits 10 (SetBit (SetBit (NewBitSet 10) 1) 9).
+Proof.
+  split; [reflexivity|]. split.
+  - apply wf_SetBit, wf_SetBit, wf_New.
+  - intros j Hj. rewrite !HasBit_SetBit by (simpl; lia). rewrite HasBit_New.
+    replace (9 =? j)%nat with false by (symmetry; apply Nat.eqb_neq; lia).
+    replace (1 =? j)%nat with false by (symmetry; apply Nat.eqb_neq; lia). reflexivity.
+Qed.
+
+(* "x", "x", "x2", "x" -> x, x2, x23, x3  (mirrors the Go code: the counter is stored under the new name) *)
+Example rename_ex : rename_all [[120]; [120]; [120; 50]; [120]] = Some [[120]; [120; 50]; [120; 50; 51]; [120; 51]].
+Proof. vm_compute. reflexivity. Qed.
+Example minname_ex : map minified_name [0; 53; 54; 3509; 3510]%nat = [[97]; [36]; [97; 97]; [36; 36]; [97; 97; 97]].
+Proof. vm_compute. reflexivity. Qed.
+
+(* two entry points e0 (1), e1 (2) sharing m0 (3) and m1 (4); both modules declare "v" *)
+Definition nm (x : bytes) : list bytes := [[118]; [98;117;109;112]; [117;95] ++ x; [100;111;110;101]; x ++ [95;101]].
+Definition ex_graph : graph := mk_graph
+  ([ ([], [], [], [[95;95;101;120;112;111;114;116]], [], []);
+     ([(3, false); (4, false)], [3; 4; 0], [3; 4], nm [101;48], [(3, 0); (3, 3); (4, 0)], [(1, 0); (1, 1); (1, 2); (1, 3)]);
+     ([(3, false); (4, false); (1, true)], [3; 4; 0], [3; 4], nm [101;49], [(3, 0); (4, 0)], [(2, 0); (2, 1); (2, 2); (2, 3)]);
+     ([], [0], [], nm [109;48], [], []);
+     ([], [0], [], nm [109;49], [], []) ],
+   [1; 2], false).
+
+Example ex_hyp : deps_cover ex_graph.
+Proof. apply deps_coverb_sound. vm_compute. reflexivity. Qed.
+
+(* three chunks: e0 {01}, e1 {10}, shared {11} with m0, m1; both entry chunks import the
+   shared chunk statically; e1 imports e0's chunk dynamically; the shared chunk exports
+   v, done, v2 *)
+Example ex_split :
+  match split ex_graph with
+  | Some r =>
+    (map c_files (a_chunks (r_analysis r)), map c_bits (a_chunks (r_analysis r)),
+     map (fun x => map (fun i => (i_dynamic i, i_chunk i, i_items i)) (x_imports x)) (r_cross r),
+     map (fun x => map snd (x_exports x)) (r_cross r),
+     r_orders r, enforce_cycle_error (r_cross r))
+    = ([[1]; [2]; [3; 4]]%nat, [[1]; [2]; [3]],
+       [[(false, 2%nat, [[100;111;110;101]; [118]; [118;50]])];
+        [(true, 0%nat, []); (false, 2%nat, [[118]; [118;50]])]; []],
+       [[]; []; [[118]; [100;111;110;101]; [118;50]]],
+       [[1]; [2]; [3; 4]]%nat, false)
+  | None => False
+  end.
+Proof. vm_compute. reflexivity. Qed.
+
+Example ex_edge : match split ex_graph with Some r => sedge (r_cross r) 0 2 /\ sedge (r_cross r) 1 2 | None => False end.
+Proof. vm_compute. split; left; reflexivity. Qed.
